@@ -157,7 +157,7 @@ def frame_job(arg):
     return rep
 
 
-def moved_internal_job(arg):
+def moved_internal_job(arg, prop="C04"):
     """One data directory used with two internal directories in turn (the blob store was moved, or a fresh cache
     directory is used): after the evaluation with the second one every path resolves through it - also once the first
     internal directory is gone."""
@@ -169,7 +169,7 @@ def moved_internal_job(arg):
     from vp.worker import run_segment
 
     p0, cache, idx = arg
-    rep = core.Report("C04")
+    rep = core.Report(prop)
     rep.evaluations = 1
     f = p0["fns"][p0["entry"]]
     ent = {"style": "eval", "module": gen.modname(p0, f["module"]), "func": f["name"], "args_src": "()"}
